@@ -1,19 +1,26 @@
 // trivial definitions of the CVODE entry points for harnesses that link the rendered naunet.cpp
-// but never integrate (C16 renormalisation conformance).
+// but never integrate (C16 renormalisation conformance, C10 link step).  What the library registers is kept:
+// CVode() then does the one thing C03's "library objects" clause needs from an integrator - it asks the registered
+// Jacobian routine to fill the registered matrix at the current state.
 #include <cvode/cvode.h>
 #include <stdlib.h>
 void *CVodeCreate(int, SUNContext) { return malloc(8); }
 void CVodeFree(void **m) { if (m && *m) { free(*m); *m = NULL; } }
+SUNMatrix verif_cv_matrix = NULL; CVLsJacFn verif_cv_jac = NULL; void *verif_cv_udata = NULL; int verif_cv_jac_ret = 0;
 int CVodeInit(void *, CVRhsFn, realtype, N_Vector) { return 0; }
 int CVodeReInit(void *, realtype, N_Vector) { return 0; }
 int CVodeSStolerances(void *, realtype, realtype) { return 0; }
 int CVodeSetErrFile(void *, FILE *) { return 0; }
 int CVodeSetMaxNumSteps(void *, long int) { return 0; }
-int CVodeSetUserData(void *, void *) { return 0; }
-int CVodeSetLinearSolver(void *, SUNLinearSolver, SUNMatrix) { return 0; }
-int CVodeSetJacFn(void *, CVLsJacFn) { return 0; }
+int CVodeSetUserData(void *, void *u) { verif_cv_udata = u; return 0; }
+int CVodeSetLinearSolver(void *, SUNLinearSolver, SUNMatrix A) { verif_cv_matrix = A; return 0; }
+int CVodeSetJacFn(void *, CVLsJacFn f) { verif_cv_jac = f; return 0; }
 int CVodeSetJacTimes(void *, void *, CVLsJacTimesVecFn) { return 0; }
-int CVode(void *, realtype tout, N_Vector, realtype *tret, int) { *tret = tout; return 0; }
+int CVode(void *, realtype tout, N_Vector y, realtype *tret, int) {
+    if (verif_cv_jac && verif_cv_matrix) verif_cv_jac_ret = verif_cv_jac(0.0, y, y, verif_cv_matrix, verif_cv_udata, NULL, NULL, NULL);
+    *tret = tout;
+    return 0;
+}
 int CVodeGetCurrentTime(void *, realtype *t) { *t = 0; return 0; }
 int CVodeGetNumSteps(void *, long int *n) { *n = 0; return 0; }
 int CVodeGetNumRhsEvals(void *, long int *n) { *n = 0; return 0; }
